@@ -8,7 +8,7 @@ use crate::streams::*;
 use crate::util::*;
 use rayon::prelude::*;
 use serde_json::{json, Value};
-use stateright::{Checker, Model, Property};
+use stateright::{Model, Property};
 use std::sync::atomic::{AtomicU64, Ordering};
 use std::sync::Arc;
 
@@ -324,15 +324,16 @@ pub fn run(rep: &'static Report) {
     let seed = rep.seed;
     rep.set_rule("E-GRAPH over histories: breadth-first search (stateright) over all operation sequences up to the length bound from {lib key_encrypt with randomness left to the implementation, PrivateKey::generate, kestrel encrypt, kestrel password encrypt, kestrel key generate, kestrel key change-pass}, all with identical inputs; in every state the whole history is executed on the real code/CLI and all fresh values (ephemeral keys, payload keys, file keys recovered by REF, salts, private keys) must be pairwise distinct and distinct from given values. Plus RNG-seam analysis (every delivered byte perturbed) and, per file, every record opens under exactly its own index. distinct non-trivial = histories + seam ops + (cs, L, partition) points");
     rep.assume("quality of getrandom itself is trusted; CLI operations use the real CSPRNG, a violating history is re-executed once and the verdict must not flip");
-    let max_len = rep.tier.pick(2, 3);
+    let max_len = rep.tier.pick(3, 4);
     let ctx = Arc::new(HCtx { fx: Fixture::new(seed), rep, max_len, executed: AtomicU64::new(0), values: AtomicU64::new(0) });
-    let checker = HistModel(ctx.clone()).checker().threads(rayon::current_num_threads()).spawn_bfs().join();
-    for (name, path) in checker.discoveries() {
-        println!("  counterexample for '{}': history {:?}", name, path.into_actions());
+    let st = crate::search::bfs_levels(&HistModel(ctx.clone()));
+    for (name, s) in &st.violating {
+        println!("  shortest counterexample for '{}': history {:?}", name, s);
     }
-    let states = checker.unique_state_count() as u64;
+    let states = st.states;
     rep.states.fetch_add(states, Ordering::Relaxed);
-    rep.transitions.fetch_add(checker.state_count() as u64, Ordering::Relaxed);
+    rep.transitions.fetch_add(st.transitions, Ordering::Relaxed);
+    rep.extra("search_engine", json!("level-synchronous parallel BFS over the stateright::Model (search.rs)"));
     rep.traces_validated.fetch_add(ctx.executed.load(Ordering::Relaxed), Ordering::Relaxed);
     rep.eval(ctx.executed.load(Ordering::Relaxed));
     rep.add_distinct(states);
